@@ -9,7 +9,10 @@
      absent_untouched        (3)  variables with no derivative keep their value
      outer_bounded           (4)  at most gas-1 gradient evaluations
      inner_terminates,
-     find_root_terminates    (5)  termination under "halving reaches a fixpoint"
+     find_root_terminates    (5)  termination under "halving reaches zero", for
+                                  every value / gradient function
+     old_line_search_refuted (5') without the zero-step exit the loop diverges
+                                  on a signed zero (sign-magnitude integers)
      Example_*               (6)  non-vacuity over Q and over a Z fixed-point toy *)
 From Coq Require Import List Arith Bool Lia ZArith QArith Qabs Qreduction.
 From LF Require Import Misc.Solver.
@@ -230,28 +233,93 @@ Section SolverSem.
   (* ------------------------------------------------------------------ *)
   (** * The line search *)
 
+  (** [trialed ev vars evc]: [evc] is [ev] after any number of trial points for
+      [vars] have been loaded into it.  Only the variables of [vars] can differ,
+      so loading one more full assignment of these variables forgets the
+      trials. *)
+  Definition trialed (ev vars evc : assign) : Prop :=
+    keys evc = keys ev /\
+    (forall k, ~ In k (keys vars) -> aget evc k = aget ev k) /\
+    (forall b, NoDup (keys b) -> keys b = keys vars -> set_all evc b = set_all ev b).
+
+  Lemma trialed_refl (ev vars : assign) : trialed ev vars ev.
+  Proof. unfold trialed. auto. Qed.
+
+  Lemma trialed_trial (ev vars tv evc : assign) :
+    keys tv = keys vars -> trialed (set_all ev tv) vars evc -> trialed ev vars evc.
+  Proof.
+    intros KT (Hk & Ho & Hs). repeat split.
+    - rewrite Hk. apply keys_set_all.
+    - intros k Hn. rewrite Ho by exact Hn. apply aget_set_all_other. now rewrite KT.
+    - intros b NDb Kb. rewrite Hs by assumption. apply set_all_set_all.
+      + rewrite KT, <- Kb. exact NDb.
+      + congruence.
+  Qed.
+
+  Lemma ls_test_false step :
+    negb (s_isfinite SO step) || s_iszero SO step = false ->
+    s_isfinite SO step = true /\ s_iszero SO step = false.
+  Proof.
+    intros T. apply orb_false_elim in T. destruct T as [T1 T2].
+    apply negb_false_iff in T1. now split.
+  Qed.
+
   (** What an accepted step looks like: the new variables are a trial point for
-      some finite step, and the evaluator has been loaded with exactly them. *)
+      some finite, non-zero step, and the evaluator has been loaded with exactly
+      them. *)
   Lemma line_search_accept fuel : forall ev vars ds r slope step ev' vars' r' c,
     line_search SO value fuel ev vars ds r slope step = LS_accept ev' vars' r' c ->
     exists evc st,
       s_isfinite SO st = true /\
+      s_iszero SO st = false /\
       vars' = trial SO vars ds st /\
       ev' = set_all evc vars' /\
       r' = value ev' /\
-      keys evc = keys ev /\
-      (forall k, ~ In k (keys vars) -> aget evc k = aget ev k).
+      trialed ev vars evc.
   Proof.
     induction fuel as [|f IH]; intros ev vars ds r slope step ev' vars' r' c H;
       cbn [line_search] in H; [discriminate|].
-    destruct (s_isfinite SO step) eqn:Fin; cbn [negb] in H; [|discriminate].
+    destruct (negb (s_isfinite SO step) || s_iszero SO step) eqn:T; [discriminate|].
+    apply ls_test_false in T. destruct T as [Fin NZ].
     match type of H with (if ?c then _ else _) = _ => destruct c end.
-    - inversion H; subst. exists ev, step. repeat split; auto.
-    - apply IH in H. destruct H as (evc & st & F & Hv & He & Hr & Hk & Ho).
-      exists evc, st. repeat split; auto.
-      + rewrite Hk. apply keys_set_all.
-      + intros k Hn. rewrite Ho by exact Hn. apply aget_set_all_other.
-        now rewrite keys_trial.
+    - inversion H; subst. exists ev, step. repeat (split; [auto|]). apply trialed_refl.
+    - apply IH in H. destruct H as (evc & st & F & Z & Hv & He & Hr & HT).
+      exists evc, st. repeat (split; [assumption|]).
+      exact (trialed_trial ev vars _ evc (keys_trial vars ds step) HT).
+  Qed.
+
+  (** When the search gives up (non-finite or zero step), it hands back the
+      evaluator, after all its trials, re-loaded with the current [vars]. *)
+  Lemma line_search_giveup fuel : forall ev vars ds r slope step ev',
+    line_search SO value fuel ev vars ds r slope step = LS_giveup ev' ->
+    exists evc, ev' = set_all evc vars /\ trialed ev vars evc.
+  Proof.
+    induction fuel as [|f IH]; intros ev vars ds r slope step ev' H;
+      cbn [line_search] in H; [discriminate|].
+    destruct (negb (s_isfinite SO step) || s_iszero SO step) eqn:T.
+    - inversion H; subst. exists ev. split; [reflexivity|apply trialed_refl].
+    - match type of H with (if ?c then _ else _) = _ => destruct c end; [discriminate|].
+      apply IH in H. destruct H as (evc & He & HT). exists evc. split; [exact He|].
+      exact (trialed_trial ev vars _ evc (keys_trial vars ds step) HT).
+  Qed.
+
+  (** The restore makes the give-up path transparent: whatever trial points
+      were loaded on the way, the evaluator handed back is, as a list, the one
+      the search started from (as soon as that one agreed with [vars]). *)
+  Lemma trialed_restore (ev vars evc : assign) :
+    NoDup (keys vars) -> agrees ev vars -> trialed ev vars evc ->
+    set_all evc vars = ev.
+  Proof.
+    intros ND A (_ & _ & Hs). rewrite Hs by auto. now apply set_all_agrees.
+  Qed.
+
+  Lemma line_search_giveup_restores fuel ev vars ds r slope step ev' :
+    NoDup (keys vars) -> agrees ev vars ->
+    line_search SO value fuel ev vars ds r slope step = LS_giveup ev' ->
+    ev' = ev.
+  Proof.
+    intros ND A H. apply line_search_giveup in H. destruct H as (evc & -> & HT).
+    now apply trialed_restore.
   Qed.
 
   (* ------------------------------------------------------------------ *)
@@ -263,10 +331,11 @@ Section SolverSem.
       I ev vars ds r -> I ev vars (set_all ds (gradient ev)) r.
     Hypothesis I_step : forall ev vars ds r evc st,
       I ev vars ds r -> s_isfinite SO st = true ->
-      keys evc = keys ev ->
-      (forall k, ~ In k (keys vars) -> aget evc k = aget ev k) ->
+      trialed ev vars evc ->
       let tv := trial SO vars ds st in
       I (set_all evc tv) tv ds (value (set_all evc tv)).
+    Hypothesis I_giveup : forall ev vars ds r evc,
+      I ev vars ds r -> trialed ev vars evc -> I (set_all evc vars) vars ds r.
 
     Lemma outer_rule ofuel : forall lsfuel gas ev vars ds r c n r' vars' ev' n',
       outer SO value gradient ofuel lsfuel gas ev vars ds r c n = Done r' vars' ev' n' ->
@@ -287,9 +356,10 @@ Section SolverSem.
         match ?ls with _ => _ end = _ => destruct ls eqn:LS
       end.
       - apply line_search_accept in LS.
-        destruct LS as (evc & st & F & Hv & He & Hr & Hk & Ho). subst.
+        destruct LS as (evc & st & F & Z & Hv & He & Hr & HT). subst.
         eapply IH; [exact H|]. apply (I_step ev vars ds' r); auto. now apply I_grad.
-      - inversion H; subst. exists ds'. now apply I_grad.
+      - apply line_search_giveup in LS. destruct LS as (evc & He & HT).
+        inversion H; subst. exists ds'. apply (I_giveup ev); [now apply I_grad|exact HT].
       - discriminate.
     Qed.
   End Rule.
@@ -315,11 +385,10 @@ Section SolverSem.
     { unfold inv1. tauto. }
     assert (S : forall ev vars ds r evc st,
       inv1 ev0 vars0 ev vars ds r -> s_isfinite SO st = true ->
-      keys evc = keys ev ->
-      (forall k, ~ In k (keys vars) -> aget evc k = aget ev k) ->
+      trialed ev vars evc ->
       let tv := trial SO vars ds st in
       inv1 ev0 vars0 (set_all evc tv) tv ds (value (set_all evc tv))).
-    { intros ev vars ds1 r1 evc st (R & A & ND & KE & KV & O) F Hk Ho tv. unfold inv1.
+    { intros ev vars ds1 r1 evc st (R & A & ND & KE & KV & O) F (Hk & Ho & _) tv. unfold inv1.
       assert (KT : keys tv = keys vars) by apply keys_trial.
       repeat split.
       + apply agrees_set_all. now rewrite KT.
@@ -328,7 +397,12 @@ Section SolverSem.
       + congruence.
       + intros k Hk0. rewrite aget_set_all_other by (rewrite KT, KV; exact Hk0).
         rewrite Ho by (rewrite KV; exact Hk0). now apply O. }
-    destruct (outer_rule _ G S _ _ _ _ _ _ _ _ _ _ _ _ _ H) as (ds' & HI).
+    assert (U : forall ev vars ds r evc,
+      inv1 ev0 vars0 ev vars ds r -> trialed ev vars evc ->
+      inv1 ev0 vars0 (set_all evc vars) vars ds r).
+    { intros ev vars ds1 r1 evc HI HT. pose proof HI as (R & A & ND & _).
+      rewrite (trialed_restore ev vars evc ND A HT). exact HI. }
+    destruct (outer_rule _ G S U _ _ _ _ _ _ _ _ _ _ _ _ _ H) as (ds' & HI).
     - unfold inv1. repeat split; auto.
     - exact HI.
   Qed.
@@ -374,9 +448,9 @@ Section SolverSem.
     keys vars' = keys vars.
   Proof.
     intros H.
-    destruct (outer_rule (fun _ vs _ _ => keys vs = keys vars)) with (3 := H) as (_ & HI);
+    destruct (outer_rule (fun _ vs _ _ => keys vs = keys vars)) with (4 := H) as (_ & HI);
       auto.
-    intros ? vs d ? ? st HK _ _ _ tv. unfold tv. rewrite keys_trial. exact HK.
+    intros ? vs d ? ? st HK _ _ tv. unfold tv. rewrite keys_trial. exact HK.
   Qed.
 
   (** 2. The solver never adds or drops a variable: the keys of the result are
@@ -418,10 +492,10 @@ Section SolverSem.
     Proof.
       intros H Hd Hi.
       destruct (outer_rule (fun _ vs d _ => dget SO d k = s_zero SO /\ In (k, x) vs))
-        with (3 := H) as (ds' & _ & HI); auto.
+        with (4 := H) as (ds' & _ & HI); auto.
       - intros ? ? d ? [D V]. split; [|exact V]. unfold dget in *.
         rewrite aget_set_all_other; [exact D|]. apply aget_None_iff. apply no_derivative.
-      - intros ? vs d ? ? st [D V] F _ _ tv. split; [exact D|]. unfold tv.
+      - intros ? vs d ? ? st [D V] F _ tv. split; [exact D|]. unfold tv.
         unfold trial. apply in_map_iff. exists (k, x). split; [|exact V].
         cbn [fst snd]. rewrite D. now rewrite zero_step_absorbed.
     Qed.
@@ -483,59 +557,71 @@ Section SolverSem.
   Lemma iter_succ_r {A} (f : A -> A) n x : Nat.iter (S n) f x = Nat.iter n f (f x).
   Proof. induction n as [|n IH]; [reflexivity|]. cbn in *. now rewrite IH. Qed.
 
+  (** The loop as it was before the zero-step exit was added: only a
+      non-finite step made it give up (and nothing was restored). *)
+  Fixpoint line_search_old (fuel : nat) (ev vars ds : assign) (r slope step : num)
+    : @ls_result num :=
+    match fuel with
+    | 0 => LS_out_of_fuel
+    | S f =>
+        if negb (s_isfinite SO step) then LS_giveup ev
+        else
+          let tv := trial SO vars ds step in
+          let ev' := set_all ev tv in
+          let r' := value ev' in
+          let diff := s_sub SO r r' in
+          if s_geb SO (s_div SO diff step) (s_mul_d SO slope (s_half SO))
+             || s_ltb SO (s_fabs SO diff) (s_eps SO)
+             || s_ltb SO slope (s_eps SO)
+             || s_ltb SO r' (s_eps SO)
+          then LS_accept ev' tv r' (s_ltb SO (s_fabs SO diff) (s_eps SO))
+          else line_search_old f ev' vars ds r slope (s_halve SO step)
+    end.
+
   Section Termination.
     Variable K : nat.
-    (** After at most [K] halvings a finite step no longer moves any point
-        (in binary32 the step underflows to zero). *)
-    Hypothesis halving_reaches_fixpoint : forall s,
+    (** The only arithmetic fact needed: after at most [K] halvings a finite
+        step is zero (binary32: underflow, K = 300 is plenty).  Nothing is
+        assumed about [trial], [s_sub], the comparisons, [value] or
+        [gradient]. *)
+    Hypothesis halving_reaches_zero : forall s,
       s_isfinite SO s = true ->
-      exists k, k <= K /\
-        forall vars ds, trial SO vars ds (Nat.iter k (s_halve SO) s) = vars.
-    Hypothesis sub_diag : forall x, s_sub SO x x = s_zero SO.
-    Hypothesis zero_small : s_ltb SO (s_fabs SO (s_zero SO)) (s_eps SO) = true.
+      exists k, k <= K /\ s_iszero SO (Nat.iter k (s_halve SO) s) = true.
 
     Lemma ls_no_oof (vars ds : assign) r slope :
-      NoDup (keys vars) ->
-      forall k fuel evc step,
+      forall k fuel ev step,
         k < fuel ->
-        (forall vs d, trial SO vs d (Nat.iter k (s_halve SO) step) = vs) ->
-        value (set_all evc vars) = r ->
-        line_search SO value fuel evc vars ds r slope step <> LS_out_of_fuel.
+        s_iszero SO (Nat.iter k (s_halve SO) step) = true ->
+        line_search SO value fuel ev vars ds r slope step <> LS_out_of_fuel.
     Proof.
-      intros ND. induction k as [|k IH]; intros fuel evc step Hf Hfix Hv;
-        (destruct fuel as [|f]; [lia|]); cbn [line_search];
-        (destruct (s_isfinite SO step); cbn [negb]; [|discriminate]).
-      - cbn [Nat.iter] in Hfix. rewrite Hfix, Hv, sub_diag, zero_small.
-        rewrite orb_true_r. cbn [orb]. discriminate.
-      - match goal with |- (if ?c then _ else _) <> _ => destruct c end; [discriminate|].
-        apply IH.
-        + lia.
-        + intros vs d. rewrite <- iter_succ_r. apply Hfix.
-        + rewrite set_all_set_all; [exact Hv| |].
-          * now rewrite keys_trial.
-          * apply keys_trial.
+      induction k as [|k IH]; intros fuel ev step Hf Hz;
+        (destruct fuel as [|f]; [lia|]); cbn [line_search].
+      - change (s_iszero SO step = true) in Hz. rewrite Hz, orb_true_r. discriminate.
+      - destruct (negb (s_isfinite SO step) || s_iszero SO step); [discriminate|].
+        match goal with |- (if ?c then _ else _) <> _ => destruct c end; [discriminate|].
+        apply IH; [lia|]. rewrite <- iter_succ_r. exact Hz.
     Qed.
 
     (** The backtracking loop always exits by itself when given more than [K]
-        iterations. *)
+        iterations: from any evaluator state, for any residual, slope and
+        step. *)
     Theorem inner_terminates fuel (ev vars ds : assign) r slope step :
-      K < fuel -> NoDup (keys vars) -> r = value ev -> agrees ev vars ->
+      K < fuel ->
       line_search SO value fuel ev vars ds r slope step <> LS_out_of_fuel.
     Proof.
-      intros Hf ND Hr Ha.
+      intros Hf.
       destruct (s_isfinite SO step) eqn:F.
-      - destruct (halving_reaches_fixpoint step F) as (k & Hk & Hfix).
-        apply ls_no_oof with (k := k); auto; [lia|].
-        rewrite set_all_agrees by exact Ha. now symmetry.
-      - destruct fuel as [|f]; [lia|]. cbn [line_search]. rewrite F. cbn [negb]. discriminate.
+      - destruct (halving_reaches_zero step F) as (k & Hk & Hz).
+        apply ls_no_oof with (k := k); [lia|exact Hz].
+      - destruct fuel as [|f]; [lia|]. cbn [line_search]. rewrite F. cbn [negb orb].
+        discriminate.
     Qed.
 
     Lemma outer_no_oof ofuel : forall lsfuel gas ev vars ds r c n,
       K < lsfuel -> 1 <= ofuel -> gas <= ofuel ->
-      NoDup (keys vars) -> r = value ev -> agrees ev vars ->
       outer SO value gradient ofuel lsfuel gas ev vars ds r c n <> OutOfFuel.
     Proof.
-      induction ofuel as [|f IH]; intros lsfuel gas ev vars ds r c n HK H1 Hg ND Hr Ha;
+      induction ofuel as [|f IH]; intros lsfuel gas ev vars ds r c n HK H1 Hg;
         [lia|]. cbn [outer].
       match goal with |- (if ?c then _ else _) <> _ => destruct c end; [discriminate|].
       destruct gas as [|g]; [discriminate|].
@@ -544,28 +630,20 @@ Section SolverSem.
       match goal with
         |- match ?ls with _ => _ end <> _ => destruct ls eqn:LS
       end.
-      - apply line_search_accept in LS.
-        destruct LS as (evc & st & F & Hv & He & Hr' & Hk & Ho).
-        assert (ND' : NoDup (keys vars0)) by (rewrite Hv, keys_trial; exact ND).
-        apply IH; auto; try lia.
-        rewrite He. now apply agrees_set_all.
+      - apply IH; lia.
       - discriminate.
       - exfalso. revert LS. now apply inner_terminates.
     Qed.
 
-    (** [find_root] is total once the fuels cover the bounds.  ([1 <= ofuel] is
-        needed: [outer 0 ...] is [OutOfFuel] even for [gas = 0].) *)
+    (** [find_root] is total once the fuels cover the bounds, for every
+        evaluator, initial assignment (duplicated keys included) and mask.
+        ([1 <= ofuel] is needed: [outer 0 ...] is [OutOfFuel] even for
+        [gas = 0].) *)
     Theorem find_root_terminates ofuel lsfuel gas ev0 vars mask :
-      NoDup (keys vars) -> K < lsfuel -> 1 <= ofuel -> gas <= ofuel ->
+      K < lsfuel -> 1 <= ofuel -> gas <= ofuel ->
       find_root SO value gradient ofuel lsfuel gas ev0 vars mask <> OutOfFuel.
     Proof.
-      intros ND HK H1 Hg. unfold find_root.
-      change (fun v : nat * num => negb (existsb (Nat.eqb (fst v)) mask))
-        with (fun v : nat * num => unmasked mask (fst v)).
-      apply outer_no_oof; auto.
-      - rewrite keys_filter. now apply NoDup_filter'.
-      - intros k x Hi Hk. rewrite keys_set_all in Hk.
-        apply aget_set_all_in; auto. apply filter_In in Hi. tauto.
+      intros HK H1 Hg. unfold find_root. now apply outer_no_oof.
     Qed.
   End Termination.
 
@@ -578,21 +656,26 @@ Section SolverSem.
     find_root SO value gradient 0 lsfuel gas ev0 vars mask = OutOfFuel.
   Proof. reflexivity. Qed.
 
-  (** The [LS_giveup] branch of [outer] returns the evaluator state from
-      BEFORE the line search, whereas the C++ evaluator keeps the last trial
-      point.  The two coincide because the search can only give up on its first
-      iteration (before any setVar) as soon as halving preserves finiteness,
-      which holds for IEEE floats. *)
-  Lemma line_search_giveup_first fuel : forall ev vars ds r slope step,
-    (forall s, s_isfinite SO s = true -> s_isfinite SO (s_halve SO s) = true) ->
-    line_search SO value fuel ev vars ds r slope step = LS_giveup ->
-    s_isfinite SO step = false.
+  (** A zero step is never accepted: the search gives up on it before trying
+      it.  (With the old loop a zero step was tried, and [trial] with a zero
+      step need not return [vars]: -0 - (0 * d) is +0 for d < 0.) *)
+  Remark line_search_zero_step fuel ev vars ds r slope step :
+    s_iszero SO step = true ->
+    line_search SO value (S fuel) ev vars ds r slope step = LS_giveup (set_all ev vars).
+  Proof. intros Z. cbn [line_search]. now rewrite Z, orb_true_r. Qed.
+
+  (** As long as no step is zero the two loops take the same decisions; they
+      differ only in what they do with a zero step (and in the restore). *)
+  Lemma line_search_old_accept fuel : forall ev vars ds r slope step ev' vars' r' c,
+    line_search SO value fuel ev vars ds r slope step = LS_accept ev' vars' r' c ->
+    line_search_old fuel ev vars ds r slope step = LS_accept ev' vars' r' c.
   Proof.
-    induction fuel as [|f IH]; intros ev vars ds r slope step HF H;
-      cbn [line_search] in H; [discriminate|].
-    destruct (s_isfinite SO step) eqn:F; [|reflexivity]. cbn [negb] in H.
-    match type of H with (if ?c then _ else _) = _ => destruct c end; [discriminate|].
-    apply IH in H; [|exact HF]. rewrite HF in H by exact F. discriminate.
+    induction fuel as [|f IH]; intros ev vars ds r slope step ev' vars' r' c H;
+      cbn [line_search] in H; [discriminate|]. cbn [line_search_old].
+    destruct (negb (s_isfinite SO step) || s_iszero SO step) eqn:T; [discriminate|].
+    apply ls_test_false in T. destruct T as [Fin _]. rewrite Fin. cbn [negb].
+    match type of H with (if ?c then _ else _) = _ => destruct c end; [exact H|].
+    now apply IH.
   Qed.
 
 End SolverSem.
@@ -610,6 +693,7 @@ Module QExample.
     s_ltb := fun a b => negb (Qle_bool b a);
     s_geb := fun a b => Qle_bool b a;
     s_isfinite := fun _ => true;
+    s_iszero := fun a => Qeq_bool a 0;
     s_add := fun a b => Qred (a + b); s_sub := fun a b => Qred (a - b);
     s_mul := fun a b => Qred (a * b); s_div := fun a b => Qred (a / b);
     s_sq := fun a => Qred (a * a);
@@ -695,6 +779,7 @@ Module ZExample.
     s_fabs := Z.abs;
     s_ltb := Z.ltb; s_geb := Z.geb;
     s_isfinite := fun s => Z.abs s <? 2 ^ 10;
+    s_iszero := fun s => s =? 0;
     s_add := Z.add; s_sub := Z.sub; s_mul := Z.mul; s_div := Z.quot;
     s_sq := fun a => a * a;
     s_halve := fun a => Z.quot a 2;
@@ -711,20 +796,22 @@ Module ZExample.
       Z.to_euclidean_division_equations. lia.
   Qed.
 
+  (** In Z a zero step does not move the point.  (This is what fails for
+      floats with a signed zero, see [SignedZero] below; the termination
+      theorem no longer needs it.) *)
   Lemma trial_zero (vars ds : @assign Z) : trial ZSO vars ds 0 = vars.
   Proof.
     unfold trial. induction vars as [|[k x] vars IH]; [reflexivity|].
     cbn [map fst snd]. rewrite IH. cbn [s_sub s_mul ZSO]. f_equal. f_equal. lia.
   Qed.
 
-  Lemma Z_halving_reaches_fixpoint : forall s,
+  Lemma Z_halving_reaches_zero : forall s,
     s_isfinite ZSO s = true ->
-    exists k, (k <= 10)%nat /\
-      forall vars ds, trial ZSO vars ds (Nat.iter k (s_halve ZSO) s) = vars.
+    exists k, (k <= 10)%nat /\ s_iszero ZSO (Nat.iter k (s_halve ZSO) s) = true.
   Proof.
-    intros s F. exists 10%nat. split; [lia|]. intros vars ds.
-    cbn [s_isfinite s_halve ZSO] in *. apply Z.ltb_lt in F.
-    rewrite (halvings_vanish 10 s F). apply trial_zero.
+    intros s F. exists 10%nat. split; [lia|].
+    cbn [s_isfinite s_halve s_iszero ZSO] in *. apply Z.ltb_lt in F.
+    rewrite (halvings_vanish 10 s F). reflexivity.
   Qed.
 
   Lemma Z_zero_step_absorbed : forall s x,
@@ -734,12 +821,9 @@ Module ZExample.
   (** the termination theorem, with all its hypotheses discharged *)
   Theorem Z_find_root_total (value : @assign Z -> Z) (gradient : @assign Z -> @assign Z)
       gas ev0 vars mask :
-    NoDup (map fst vars) ->
     find_root ZSO value gradient (S gas) 11 gas ev0 vars mask <> OutOfFuel.
   Proof.
-    intros ND. apply (find_root_terminates ZSO value gradient 10); auto; try lia.
-    - exact Z_halving_reaches_fixpoint.
-    - intros x. cbn [s_sub s_zero ZSO]. lia.
+    apply (find_root_terminates ZSO value gradient 10 Z_halving_reaches_zero); lia.
   Qed.
 
   (** and the "absent variable" theorem likewise *)
@@ -763,7 +847,148 @@ Module ZExample.
     find_root ZSO valueZ gradientZ 5 11 4 [(0%nat, 0)] [(0%nat, 0); (1%nat, 17)] [] =
     Done 0 [(0%nat, 40); (1%nat, 17)] [(0%nat, 40)] 1.
   Proof. vm_compute. reflexivity. Qed.
+
+  (** The give-up path after several trials.  f = 100 at v = 0 and 300 anywhere
+      else: no step is ever accepted, the step 100 is halved down to 0 (seven
+      trial points are loaded into the evaluator on the way), the search gives
+      up and the evaluator is handed back at v = 0, where f is the returned
+      residual 100. *)
+  Definition valueJ (ev : @assign Z) : Z :=
+    match aget ev 0%nat with Some 0 => 100 | _ => 300 end.
+  Definition gradientJ (_ : @assign Z) : @assign Z := [(0%nat, 1)].
+  Example Example_giveup_restores :
+    find_root ZSO valueJ gradientJ 5 11 4 [(0%nat, 9)] [(0%nat, 0)] [] =
+      Done 100 [(0%nat, 0)] [(0%nat, 0)] 1 /\
+    (* the evaluator just before the restore holds the last trial point *)
+    line_search ZSO valueJ 7 [(0%nat, 0)] [(0%nat, 0)] [(0%nat, 1)] 100 1 100 =
+      LS_out_of_fuel /\
+    line_search ZSO valueJ 8 [(0%nat, 0)] [(0%nat, 0)] [(0%nat, 1)] 100 1 100 =
+      LS_giveup [(0%nat, 0)] /\
+    line_search_old ZSO valueJ 7 [(0%nat, 0)] [(0%nat, 0)] [(0%nat, 1)] 100 1 100 =
+      LS_out_of_fuel.
+  Proof. vm_compute. repeat split; reflexivity. Qed.
 End ZExample.
+
+(** ** Sign-magnitude integers: an arithmetic with two zeros
+
+    [(s, m)] is (-1)^s * m; [(false, 0)] is +0 and [(true, 0)] is -0.  The sign
+    rules are the IEEE ones: a product or quotient carries the xor of the
+    signs, x + (-x) = +0, (-0) + (-0) = -0, comparisons do not see the sign of
+    a zero, x / 0 is an infinity (here: a magnitude that is not finite).
+    "Finite" means m < 2^10 and halving truncates, so that halving a finite
+    step reaches a zero within 10 halvings: the hypothesis of the termination
+    theorem holds.
+
+    The value function looks at the sign of a zero (as atan2(v, -1) does): with
+    the OLD loop, the step underflows to zero, the trial point for step 0 is
+    -0 - (+0 * -1) = -0 - (-0) = +0, not the current point -0, the residual
+    there differs, no exit test fires, and halving zero gives zero: the loop
+    never ends.  The repaired loop gives up on the zero step. *)
+Module SignedZero.
+  Local Open Scope Z_scope.
+  Definition sz := (bool * Z)%type.
+  Definition pz : sz := (false, 0).
+  Definition nz : sz := (true, 0).
+  Definition of_Z (z : Z) : sz := (z <? 0, Z.abs z).
+  Definition to_Z (a : sz) : Z := if fst a then - snd a else snd a.
+  Definition sz_neg (a : sz) : sz := (negb (fst a), snd a).
+  Definition sz_add (a b : sz) : sz :=
+    if Bool.eqb (fst a) (fst b) then (fst a, snd a + snd b)
+    else if snd b <? snd a then (fst a, snd a - snd b)
+    else if snd a <? snd b then (fst b, snd b - snd a)
+    else pz.
+  Definition sz_mul (a b : sz) : sz := (xorb (fst a) (fst b), snd a * snd b).
+  Definition sz_div (a b : sz) : sz :=
+    (xorb (fst a) (fst b), if snd b =? 0 then 2 ^ 20 else Z.quot (snd a) (snd b)).
+  Definition sz_halve (a : sz) : sz := (fst a, Z.quot (snd a) 2).
+
+  Definition SZO : @sops sz := {|
+    s_zero := pz; s_eps := of_Z 1; s_half := pz;
+    s_fabs := fun a => (false, snd a);
+    s_ltb := fun a b => to_Z a <? to_Z b;
+    s_geb := fun a b => to_Z a >=? to_Z b;
+    s_isfinite := fun a => Z.abs (snd a) <? 2 ^ 10;
+    s_iszero := fun a => snd a =? 0;
+    s_add := sz_add; s_sub := fun a b => sz_add a (sz_neg b);
+    s_mul := sz_mul; s_div := sz_div;
+    s_sq := fun a => sz_mul a a;
+    s_halve := sz_halve;
+    s_mul_d := fun a _ => sz_halve a |}.
+
+  Lemma iter_halve (n : nat) s m :
+    Nat.iter n sz_halve (s, m) = (s, Nat.iter n (fun a => Z.quot a 2) m).
+  Proof.
+    induction n as [|n IH]; [reflexivity|].
+    change (Nat.iter (S n) sz_halve (s, m)) with (sz_halve (Nat.iter n sz_halve (s, m))).
+    rewrite IH. reflexivity.
+  Qed.
+
+  (** the hypothesis of [find_root_terminates] holds, with K = 10 *)
+  Lemma SZ_halving_reaches_zero : forall s,
+    s_isfinite SZO s = true ->
+    exists k, (k <= 10)%nat /\ s_iszero SZO (Nat.iter k (s_halve SZO) s) = true.
+  Proof.
+    intros [s m] F. exists 10%nat. split; [lia|].
+    cbn [s_isfinite s_halve s_iszero SZO snd] in *. apply Z.ltb_lt in F.
+    rewrite iter_halve. cbn [snd]. rewrite (ZExample.halvings_vanish 10 m F). reflexivity.
+  Qed.
+
+  (** 2 at -0, 5 everywhere else (+0 included) *)
+  Definition valueS (ev : @assign sz) : sz :=
+    match aget ev 0%nat with
+    | Some (true, 0) => of_Z 2
+    | _ => of_Z 5
+    end.
+  Definition gradientS (_ : @assign sz) : @assign sz := [(0%nat, of_Z (-1))].
+
+  Definition varsS : @assign sz := [(0%nat, nz)].
+  Definition dsS : @assign sz := [(0%nat, of_Z (-1))].
+
+  (** the trial point for a zero step is not the current point *)
+  Example trial_zero_step_moves :
+    trial SZO varsS dsS pz = [(0%nat, pz)] /\ trial SZO varsS dsS pz <> varsS.
+  Proof. split; [reflexivity|discriminate]. Qed.
+
+  Lemma old_loop_spins fuel : forall x,
+    line_search_old SZO valueS fuel [(0%nat, x)] varsS dsS (of_Z 2) (of_Z 1) pz
+    = LS_out_of_fuel.
+  Proof.
+    induction fuel as [|f IH]; intros x; [reflexivity|].
+    transitivity (line_search_old SZO valueS f [(0%nat, pz)] varsS dsS (of_Z 2) (of_Z 1) pz);
+      [reflexivity|apply IH].
+  Qed.
+
+  (** The old loop, called as [outer] calls it (r = f(-0) = 2, slope = 1,
+      first step r / slope = 2), runs out of ANY fuel: steps 2, 1, 0, 0, ... *)
+  Theorem old_line_search_refuted : forall fuel,
+    line_search_old SZO valueS fuel varsS varsS dsS (of_Z 2) (of_Z 1) (of_Z 2)
+    = LS_out_of_fuel.
+  Proof.
+    intros [|[|[|f]]]; try reflexivity.
+    transitivity (line_search_old SZO valueS (S f) [(0%nat, of_Z 1)] varsS dsS
+                    (of_Z 2) (of_Z 1) pz); [reflexivity|apply old_loop_spins].
+  Qed.
+
+  (** the repaired loop gives up at the zero step and restores -0 *)
+  Example new_line_search_gives_up :
+    line_search SZO valueS 3 varsS varsS dsS (of_Z 2) (of_Z 1) (of_Z 2) = LS_giveup varsS.
+  Proof. vm_compute. reflexivity. Qed.
+
+  (** and the whole call returns, reporting the residual at the point it is at *)
+  Example Example_signed_zero :
+    find_root SZO valueS gradientS 5 11 4 [(0%nat, pz)] varsS [] =
+    Done (of_Z 2) varsS varsS 1.
+  Proof. vm_compute. reflexivity. Qed.
+
+  Theorem SZ_find_root_total (value : @assign sz -> sz) (gradient : @assign sz -> @assign sz)
+      gas ev0 vars mask :
+    find_root SZO value gradient (S gas) 11 gas ev0 vars mask <> OutOfFuel.
+  Proof.
+    apply (find_root_terminates SZO value gradient 10 SZ_halving_reaches_zero); lia.
+  Qed.
+End SignedZero.
+
+Notation old_line_search_refuted := SignedZero.old_line_search_refuted.
 
 Print Assumptions residual_consistent.
 Print Assumptions masked_untouched.
@@ -772,3 +997,6 @@ Print Assumptions outer_bounded.
 Print Assumptions inner_terminates.
 Print Assumptions find_root_terminates.
 Print Assumptions ZExample.Z_find_root_total.
+Print Assumptions SignedZero.SZ_halving_reaches_zero.
+Print Assumptions SignedZero.old_line_search_refuted.
+Print Assumptions SignedZero.SZ_find_root_total.
